@@ -90,6 +90,20 @@ def _impl(tier, seed, search):
                     L.check('Twist3(multi)*k:len', len(got_) == 2, inp, 'multi-valued Twist3 * scalar does not keep the number of values', sig='Twist3(multi)*k')
                     if len(got_) == 2:
                         for g_, w_ in zip(got_, want_): L.close('Twist3(multi)*k', g_, w_, TOL, max(1.0, float(np.max(np.abs(w_)))), inp, sig='Twist3(multi)*k')
+            # several twists in one object: exp(scalar theta) / SE3() give one motion per twist, inv() negates value by value (order kept)
+            if i % 5 == 1:
+                def multi_exp_inv():
+                    Ss_ = [Twist3.Revolute(geom.axis_scaled(g), g.normal(size=3)).S, Twist3.Prismatic(geom.axis_scaled(g)).S, S.S]
+                    Sm = Twist3([x_.copy() for x_ in Ss_])
+                    return ([np.asarray(x_, float) for x_ in Sm.exp(th).data], [np.asarray(x_, float) for x_ in Sm.SE3().data], [np.asarray(x_, float) for x_ in Sm.inv().data],
+                            [Twist3(x_).exp(th).A for x_ in Ss_], [Twist3(x_).SE3().A for x_ in Ss_], [-x_ for x_ in Ss_])
+                ok2, r = L.noraise('Twist3(multi).exp(scalar)', multi_exp_inv, inp, 'exp(scalar theta) / SE3() / inv() of a 3-valued Twist3', sig='Twist3(multi):exp-inv:raises')
+                if ok2:
+                    for nm_, got_, want_ in (('exp(theta)', r[0], r[3]), ('SE3()', r[1], r[4]), ('inv()', r[2], r[5])):
+                        L.check(f'Twist3(multi).{nm_}:len', len(got_) == 3, inp, f'{nm_} of a 3-valued Twist3 gives {len(got_)} values', sig=f'Twist3(multi).{nm_}')
+                        if len(got_) == 3:
+                            for k_ in range(3): L.close(f'Twist3(multi).{nm_}', got_[k_], np.asarray(want_[k_], float), TOL, max(1.0, float(np.max(np.abs(want_[k_])))), dict(inp, k=k_),
+                                                        what=f'value {k_} of {nm_} on a 3-valued Twist3 is not {nm_} of twist {k_}', sig=f'Twist3(multi).{nm_}')
             # several unit twists held by one object: pitch, theta and the parts are reported value by value
             if i % 5 == 0:
                 def multi_q():
